@@ -273,6 +273,9 @@ pub struct Alphabet {
     /// subscription handlers write `(delivered value + 1) mod 3` to this variable on every
     /// Initialised / Changed they receive (families keep max_subs = 1: no ordering question)
     pub handler_sets_var: Option<u8>,
+    /// subscription handlers call `disallow_future_use` on their *own observer* when they receive their first
+    /// `Changed`: sibling subscriptions of that observer that have not run yet in this round must not run any more
+    pub handler_self_disallow: bool,
     /// observability callbacks of `Xp` nodes write `1` (became observed) / `0` (no longer observed) to this
     /// variable; like every write made during a stabilise it must reach the graph only at the next one
     pub obs_cb_sets_var: Option<u8>,
@@ -298,6 +301,7 @@ impl Default for Alphabet {
             observable: vec![],
             handler_self_unsub: false,
             handler_sets_var: None,
+            handler_self_disallow: false,
             obs_cb_sets_var: None,
         }
     }
@@ -311,7 +315,7 @@ impl Alphabet {
             "unsubscribe": self.unsubscribe, "state_unsubscribe": self.state_unsubscribe, "on_update": self.on_update,
             "observe_inner": self.observe_inner, "max_observers": self.max_observers, "max_subs": self.max_subs,
             "closures_read_observers": self.closures_read_observers, "observable": self.observable,
-            "handler_self_unsub": self.handler_self_unsub, "handler_sets_var": self.handler_sets_var, "obs_cb_sets_var": self.obs_cb_sets_var,
+            "handler_self_unsub": self.handler_self_unsub, "handler_sets_var": self.handler_sets_var, "obs_cb_sets_var": self.obs_cb_sets_var, "handler_self_disallow": self.handler_self_disallow,
         })
     }
     pub fn from_json(j: &Json) -> Option<Alphabet> {
@@ -332,6 +336,7 @@ impl Alphabet {
             max_subs: j.get("max_subs")?.as_u64()? as u8,
             closures_read_observers: b("closures_read_observers"),
             handler_self_unsub: b("handler_self_unsub"),
+            handler_self_disallow: b("handler_self_disallow"),
             handler_sets_var: j.get("handler_sets_var").and_then(|v| v.as_u64()).map(|x| x as u8),
             obs_cb_sets_var: j.get("obs_cb_sets_var").and_then(|v| v.as_u64()).map(|x| x as u8),
             observable: j
